@@ -185,11 +185,19 @@ fn coq_pathspec(p: &PathSpec) -> String {
 }
 fn coq_case(c: &Case) -> String {
     match c {
-        Case::Match { defs, paths } => format!(
-            "KMatch {} {}",
-            coq_list(defs, |d| format!("({}, {})", coq_bool(d.prefix), coq_pats(&d.pats))),
-            coq_list(paths, coq_pathspec)
-        ),
+        Case::Match { defs, paths } => {
+            let ds = coq_list(defs, |d| format!("({}, {})", coq_bool(d.prefix), coq_pats(&d.pats)));
+            if paths.iter().all(|p| matches!(p, PathSpec::Plain { .. })) {
+                let mut s = String::new();
+                for p in paths {
+                    s.push_str(&hex(path_string(p).as_bytes()));
+                    s.push(',');
+                }
+                format!("KMatchS {} \"{}\"", ds, s)
+            } else {
+                format!("KMatch {} {}", ds, coq_list(paths, coq_pathspec))
+            }
+        }
         Case::Build { prefix, pats, vals } => {
             format!("KBuild {} {} {}", coq_bool(*prefix), coq_pats(pats), coq_list(vals, |v| coq_bytes(v.as_bytes())))
         }
@@ -198,6 +206,38 @@ fn coq_case(c: &Case) -> String {
 }
 
 // ---------------------------------------------------------------------------- canonical rendering
+/// compact canonical text of a `V` (mirrors `ser` in coq/theories/Run/RunC10.v)
+fn ser(v: &V, out: &mut String) {
+    match v {
+        V::N(n) => {
+            out.push('#');
+            out.push_str(&format!("{:x}", n));
+            out.push(';');
+        }
+        V::H(b) => {
+            out.push('x');
+            out.push_str(&hex(b));
+            out.push(';');
+        }
+        V::T(tag, args) => {
+            out.push('(');
+            out.push_str(tag);
+            out.push(':');
+            for a in args {
+                ser(a, out);
+            }
+            out.push_str(");");
+        }
+        V::L(items) => {
+            out.push('[');
+            for a in items {
+                ser(a, out);
+            }
+            out.push_str("];");
+        }
+    }
+}
+
 fn v_bytes_s(b: &[u8]) -> V {
     if b.len() <= 64 {
         V::h(b)
@@ -242,8 +282,15 @@ fn path_string(p: &PathSpec) -> String {
 
 /// language membership of one captured value, judged by the `regex` crate itself
 fn in_language(re: &[Atom], v: &str) -> bool {
-    let r = regex::Regex::new(&format!("(?s-m)^(?:{})$", re_text(re))).unwrap();
-    r.is_match(v)
+    thread_local! {
+        static CACHE: std::cell::RefCell<HashMap<String, regex::Regex>> = std::cell::RefCell::new(HashMap::new());
+    }
+    let text = re_text(re);
+    CACHE.with(|c| {
+        let mut c = c.borrow_mut();
+        let r = c.entry(text.clone()).or_insert_with(|| regex::Regex::new(&format!("(?s-m)^(?:{})$", text)).unwrap());
+        r.is_match(v)
+    })
 }
 
 struct Verdict(Result<(), String>);
@@ -857,7 +904,7 @@ fn gen_match_case(rng: &mut Rng, npaths: usize) -> Case {
         };
         gen_paths_for(rng, first, &allr, npaths)
     };
-    if two && !allr.is_empty() {
+    if two && all.len() > 1 {
         // concatenated instances: prefix instance + instance of the second definition
         for _ in 0..npaths / 3 {
             let (a, _) = instantiate(rng, &all[0]);
@@ -1009,7 +1056,7 @@ fn emit_case(em: &mut Emitter, id: String, case: Case, totals: &mut Stats) {
     tags.sort();
     tags.dedup();
     let (expect, show, ok, why) = match r {
-        Ok(v) => (Some(v.coq()), v.show(), verdict.0.is_ok(), verdict.0.err().unwrap_or_default()),
+        Ok(v) => (Some({ let mut s = String::from("(VH \""); ser(&v, &mut s); s.push_str("\")"); s }), v.show(), verdict.0.is_ok(), verdict.0.err().unwrap_or_default()),
         Err(p) => {
             em.panics += 1;
             (None, format!("PANIC {p}"), false, format!("implementation panicked: {p}"))
@@ -1060,16 +1107,16 @@ fn main() {
     if args.case.is_none() {
         let mut rng = Rng::new(args.seed);
         let thorough = args.thorough();
-        let n = args.n.unwrap_or(if thorough { 6000 } else { 700 });
-        let npaths = if thorough { 48 } else { 40 };
+        let n = args.n.unwrap_or(if thorough { 5000 } else { 400 });
+        let npaths = if thorough { 48 } else { 30 };
         // (a) exhaustive blocks: a pattern × every path over the alphabet up to a length
-        let exh_patterns = if args.n.is_some() { 0 } else if thorough { 60 } else { 6 };
+        let exh_patterns = if args.n.is_some() { 0 } else if thorough { 40 } else { 3 };
         let exh_len = if thorough { 5 } else { 4 };
         let every = all_strings(ALPHA, exh_len);
         for i in 0..exh_patterns {
             let mut r = rng.fork();
             let def = Def { prefix: r.chance(2, 5), pats: if r.chance(3, 4) { Pats::Single(gen_pattern(&mut r, true)) } else { gen_pats(&mut r) } };
-            for (j, chunk) in every.chunks(400).enumerate() {
+            for (j, chunk) in every.chunks(200).enumerate() {
                 let paths = chunk.iter().map(|b| PathSpec::Plain { p: String::from_utf8(b.clone()).unwrap(), hit: false }).collect();
                 emit_case(&mut em, format!("exh-{i}-{j}"), Case::Match { defs: vec![def.clone()], paths }, &mut totals);
             }
@@ -1087,7 +1134,7 @@ fn main() {
                 }
                 k += 1;
                 let prot: &[u8] = if k % 3 == 0 { b"" } else if k % 3 == 1 { b"%/+" } else { b"/" };
-                if thorough || k % 4 == 0 {
+                if thorough || k % 8 == 0 {
                     emit_case(&mut em, format!("qexh-{k}"), Case::Quote { prot: hex(prot), s: hex(s) }, &mut totals);
                 }
             }
